@@ -136,6 +136,10 @@ func diffCases(r *vf.Run, groupMode bool) []diffCase {
 		cases = append(cases, diffCase{id: "big150k", rows: 150000})
 	}
 	cases = append(cases, diffCase{id: "concat-small", rows: 60}, diffCase{id: "concat-1200", rows: 1200})
+	cases = append(cases, diffCase{id: "wide-rows", rows: 60})
+	if !groupMode {
+		cases = append(cases, diffCase{id: "container-edges", rows: 131072})
+	}
 	if !groupMode {
 		// the NOT universe when the row count is a multiple of the container size and the last rows carry no column
 		cases = append(cases, diffCase{id: "trail65536", rows: 65536}, diffCase{id: "trail4096", rows: 4096})
@@ -144,6 +148,9 @@ func diffCases(r *vf.Run, groupMode bool) []diffCase {
 		}
 	} else {
 		cases = append(cases, diffCase{id: "manygroups", rows: r.Pick(9000, 30000)})
+		if r.Thorough() {
+			cases = append(cases, diffCase{id: "groups70000", rows: 70000})
+		}
 	}
 	for i := range cases {
 		c := &cases[i]
@@ -151,8 +158,14 @@ func diffCases(r *vf.Run, groupMode bool) []diffCase {
 		if strings.HasPrefix(c.id, "trail") {
 			c.opts.EmptyRows, c.opts.TrailingEmpty = true, 3
 		}
+		if c.id == "groups70000" {
+			c.opts = gen.DatasetOpts{Rows: c.rows, MaxCols: 1, Shapes: []gen.ValueShape{gen.ShapeUnique}, NoMissing: true}
+		}
 		if c.id == "manygroups" {
 			c.opts = gen.DatasetOpts{Rows: c.rows, MaxCols: 2, MaxCard: 6000, Shapes: []gen.ValueShape{gen.ShapeManyDistinct, gen.ShapeRun}, HostileVals: true}
+		}
+		if c.id == "container-edges" || c.id == "wide-rows" {
+			c.opts = gen.DatasetOpts{Rows: c.rows, Crafted: c.id}
 		}
 		if strings.HasPrefix(c.id, "concat") {
 			c.opts.Concat = true
